@@ -296,11 +296,18 @@ Definition resume_final_failed (c : case) (p : proj) : bool :=
   | _, _ => true
   end.
 
+(* a verdict is withdrawn (the experiment restarts) only when the restart is enabled: succeeded by reaching max trials,
+   resumePolicy LongRunning or FromVolume, maxTrialCount raised above the trials counted in the status *)
+Definition restart_step (cf : cfg) (prev : proj) (a : action) (p : proj) : bool :=
+  if exp_completed prev && negb (exp_completed p) && is_some (pj_exp p) then restart_enabled cf prev else true.
+
 Definition resume_ok (c : case) : bool :=
+  all_steps (restart_step (k_cfg c)) (initial c) (k_steps c) &&
   rpc_walk None (initial c) (k_steps c)
   && match k_quiet c with Some _ => resume_final c (last_state c) && resume_final_failed c (last_state c) | None => true end.
 
 (* everything but the clause that the known finding F14 violates *)
 Definition resume_ok_modulo_f14 (c : case) : bool :=
+  all_steps (restart_step (k_cfg c)) (initial c) (k_steps c) &&
   rpc_walk None (initial c) (k_steps c)
   && match k_quiet c with Some _ => resume_final c (last_state c) | None => true end.
